@@ -36,6 +36,15 @@ def run_traces(a, only=None):
         bad = {}
         for t in r.bad:
             bad.setdefault(t[1], []).append(t[0])
+        # conformance of the same events with the loop logic of Runtime.tla (RuntimeLogic.tla + ViewContexts.tla)
+        r2 = vlib.tlc("Trace_RuntimeConf", "Trace_RuntimeConf.cfg", workdir=wd, workers=1, timeout=3000, env_extra={"VERIF_TRACE": trace})
+        if r2.error or r2.violated:
+            raise vlib.Inconclusive("Trace_RuntimeConf: %s" % (r2.error or r2.violated))
+        if r2.distinct < len(lines):
+            raise vlib.Inconclusive("Trace_RuntimeConf consumed %d of %d lines" % (r2.distinct, len(lines)))
+        for t in r2.bad:
+            bad.setdefault(t[1], []).append(t[0])
+        r.conf = r2
         _cache[key] = (lines, bad, r, out)
         return _cache[key]
     finally:
@@ -54,6 +63,7 @@ def judge(rep, pid, tier, seed, only=None, args=None):
     a = args or gen_args(tier, seed)
     lines, bad, r, out = run_traces(a, only)
     rep.add_tlc(r, "Trace_Runtime over %d events of the real runtime" % len(lines))
+    rep.add_tlc(r.conf, "Trace_RuntimeConf: the same events against the loop decisions of Runtime.tla / RuntimeLogic.tla and the registry of ViewContexts.tla")
     runs = [i for i, e in enumerate(lines, 1) if e["ev"] == "init"]
     rep.traces += len(runs)
     rep.evaluations += len(lines)
